@@ -203,7 +203,7 @@ Section Keys.
     let num_to_blind := length (filter marked (t_out t)) in
     let* st := blind_loop p num_to_blind spent_utxo_secrets (mkBS [] [] None [] 0 rnd) 0 (t_out t) in
     match bs_last st with
-    | None => OPanic PNoLastOutput               (* .expect("Internal output calculation error") — finding F12 *)
+    | None => OFail BTooFewBlindingOutputs       (* last_output_index.ok_or(BlindError::TooFewBlindingOutputs)? — repair 8d5600e of finding F12 *)
     | Some last_index =>
         match nth_error (bs_outs st) last_index with
         | None => OPanic PIndex
